@@ -1025,3 +1025,46 @@ def zero_weight_border_case(rng, ncomp, region_given=False):
     for w in weights:
         w[~positive] = 0.0
     return east, north, kwargs, weights, on_box
+
+
+# --------------------------------------------------------------------------
+# documented defaults (docstrings of verde/blockreduce.py, verde/coordinates.py, verde/utils.py)
+# --------------------------------------------------------------------------
+BLOCK_SPLIT_DEFAULTS = {"spacing": None, "adjust": "spacing", "region": None, "shape": None}
+FILTER_DEFAULTS = {"weights": None}
+INIT_DEFAULTS = {"spacing": None, "region": None, "adjust": "spacing", "center_coordinates": False, "shape": None, "drop_coords": True,
+                 "uncertainty": False}
+V2W_DEFAULTS = {"tol": 1e-15, "dtype": "float64"}
+
+
+def judge_constructor(run, ev, what):
+    """
+    After __init__: every constructor parameter is stored as given, and a parameter the caller left out holds the DOCUMENTED
+    default (ev.args carries the documented value for left-out arguments). The other monitors read the parameters from the object.
+    """
+    if ev.exc is not None:
+        return
+    est = ev.args.get("self")
+    run.evaluated("constructor_parameters_as_documented")
+    wrong = []
+    for name, value in ev.args.items():
+        if name == "self":
+            continue
+        have = getattr(est, name, "<missing>")
+        same = have is value or (not callable(value) and type(have) is type(value) and core.digest(have) == core.digest(value))
+        if not same:
+            wrong.append((name, have, value))
+    if wrong:
+        run.violation("constructor_parameters_as_documented",
+                      "%s: parameter(s) %s differ from what was passed / from the documented default" % (what, [w[0] for w in wrong]),
+                      {"stored": {w[0]: (repr(w[1]) if callable(w[1]) else w[1]) for w in wrong},
+                       "passed_or_documented": {w[0]: (repr(w[2]) if callable(w[2]) else w[2]) for w in wrong}},
+                      key="constructor:" + ",".join(w[0] for w in wrong))
+
+
+def same_output(a, b):
+    """Bitwise-equal nested tuples of arrays (NaN equal to NaN), dtypes included."""
+    if isinstance(a, tuple) or isinstance(b, tuple):
+        return isinstance(a, tuple) and isinstance(b, tuple) and len(a) == len(b) and all(same_output(x, y) for x, y in zip(a, b))
+    a, b = np.asarray(a), np.asarray(b)
+    return a.dtype == b.dtype and a.shape == b.shape and bool(np.array_equal(a, b, equal_nan=a.dtype.kind == "f"))
